@@ -26,7 +26,9 @@ def make_config(rng, profile, tier):
     cfg['names'] = rng.sample(['asc', 'b_time', 'b_cost', 'beta', 'BETA', 'b', 'b1', 'b10', 'b2', 'mu', 'a_b', 'C_z'], cfg['K'])
     cfg['N'] = rng.choice([1, 2, 3, 5, 7, 12, 20, 40]) if rng.random() < 0.6 else rng.randrange(1, 41)
     cfg['threads'] = rng.choice([1, 2, 3, 0])
-    cfg['panel'] = (profile != 'est') and rng.random() < 0.15
+    # (estimation profile: panel only with the logit family - the trajectory of the quadratic family, exp of a large negative
+    # sum, underflows to 0 far from the optimum and the log likelihood is then -inf, which is no business of C07)
+    cfg['panel'] = rng.random() < (0.15 if profile != 'est' else (0.12 if cfg['family'] == 'logit' else 0.0))
     # row labels of the tables handed to the library (buggify): positions, a permutation of them, with gaps, shifted
     cfg['index_kind'] = rng.choice(['range', 'range', 'keep', 'gaps', 'offset', 'dup'])
     if cfg['panel']:
@@ -34,10 +36,14 @@ def make_config(rng, profile, tier):
         cfg['N'] = max(cfg['N'], 3)
     if profile == 'est':
         cfg['N'] = max(cfg['N'], 6)
+        if cfg['panel']:
+            # few rows per individual: the product over an individual's rows must not underflow at the far corners of the
+            # box that a bounded algorithm may visit (exp(-745) is 0, and the log likelihood -inf)
+            cfg['N'] = min(cfg['N'], 20)
         # the same parameter declared by two Beta objects (a helper called twice): merged by name everywhere
         cfg['dup_objects'] = rng.random() < 0.3
         cfg['inf_bounds'] = rng.random() < 0.3      # absent bounds written as infinite numbers instead of None
-        cfg['weight'] = rng.choice([None, None, 'col'])
+        cfg['weight'] = rng.choice([None, None, 'col']) if not cfg['panel'] else None
         cfg['bound_plan'] = [rng.choice(['none', 'none', 'wide', 'active_upper', 'active_lower', 'one_sided', 'zero'])
                              for _ in range(cfg['K'])]
         cfg['max_iterations'] = rng.choice([200, 200, 200, 2, 3])
@@ -867,6 +873,12 @@ class Session:
         if boot:
             b.biogeme_parameters.set_value('bootstrap_samples', boot)
         fixed_before = {nm: rec['betas'][nm].initValue for nm, _ in self.cfg['fixed']}
+        if (T or 0) % 4 == 1 and algo in BOUNDED and not self.cfg.get('inf_bounds'):
+            # random starting values asked for before the estimation: they concern the free parameters only (the number
+            # that stands for a missing bound is larger than every declared bound, so that each interval is a proper one;
+            # with bounds written as infinite numbers numpy refuses to draw, which is not this property's business)
+            b.set_random_init_values(default_bound=3.0)
+            ctx.probe('random starting values before the estimation')
         r = b.estimate(run_bootstrap=bool(boot))
         ctx.count('estimations')
         est = {n: float(v) for n, v in r.get_beta_values().items()}
